@@ -345,6 +345,33 @@ def state_classes(isv: Func):
                     prefixes |= {string_value(e) for e in v.args[0].elts}
             else:
                 prefixes.add(string_value(a))
+    # classification by the leading tag, taken off the name by a helper: `helper(name) in tags`
+    for n in ast.walk(isv.node):
+        if isinstance(n, ast.Compare) and len(n.ops) == 1 and isinstance(n.ops[0], ast.In) \
+                and isinstance(n.left, ast.Call) and isinstance(n.left.func, ast.Name) \
+                and len(n.left.args) == 1 and dotted(n.left.args[0]) == p:
+            h = isv.module.functions.get(n.left.func.id)
+            if h is None:
+                raise AnalysisError(f"is_state_variable: helper {n.left.func.id} not resolved")
+            hp = h.params[0]
+            src = ast.unparse(h.node)
+            # the helper returns name[:name.find('>') + 1] for names that start with '<'
+            cuts = any(isinstance(r, ast.Return) and isinstance(r.value, ast.Subscript)
+                       and dotted(r.value.value) == hp and isinstance(r.value.slice, ast.Slice)
+                       and r.value.slice.lower is None for r in ast.walk(h.node))
+            if not (cuts and f"{hp}.startswith('<')" in src and (f"{hp}.find('>')" in src
+                                                                 or f"{hp}.index('>')" in src)):
+                raise AnalysisError(f"is_state_variable: what {h.name} takes off the name is not "
+                                    f"recognised")
+            c = n.comparators[0]
+            if isinstance(c, ast.Name):
+                c = isv.module.assigns.get(c.id, c)
+            if isinstance(c, ast.Call) and c.args:
+                c = c.args[0]
+            if not isinstance(c, (ast.Tuple, ast.List, ast.Set)):
+                raise AnalysisError("is_state_variable: collection of tags not resolved")
+            # a name whose leading tag is in the collection: every name that starts with it
+            prefixes |= {string_value(e_) for e_ in c.elts}
     # classification by a compiled regular expression "<(tag)>": read the pattern
     for n in ast.walk(isv.node):
         if isinstance(n, ast.Call) and isinstance(n.func, ast.Attribute) \
@@ -451,7 +478,15 @@ def _storage(run, P):
                 stored_prefix.add(string_value(n.slice.left))
     if not bad and not (exact or prefixes):
         raise AnalysisError("is_state_variable: classification tests not recognised")
-    ok = stored_exact <= exact and stored_prefix <= prefixes and not bad
+    covered = {n_ for n_ in stored_exact if n_ in exact or any(n_.startswith(p_) for p_ in prefixes)}
+    ok = stored_exact <= covered and stored_prefix <= prefixes and not bad
+    whole = sorted({"<t>", "<dt>"} & prefixes)
+    run.ob("C13.storage", isv, isv.node, not whole,
+           construct="'<t>' and '<dt>' are persistent as whole names only"
+                     + (f" (accepted as prefixes: {whole})" if whole else ""),
+           why="a temporary called '<dt>_prev' or '<t>0' is per-step by the identifier "
+               "conventions; classified by prefix it is kept on the stepper, survives a failed "
+               "step and becomes a component of the Fortran state type")
     run.ob("C13.storage", isv, isv.node, ok,
            construct=f"exact {sorted(exact)} / prefixes {sorted(prefixes)} cover what "
                      f"set_up() stores: {sorted(stored_exact)} / {sorted(stored_prefix)}",
@@ -613,7 +648,9 @@ def _no_consumer_cache(run, P):
 def _shared(run, P):
     # an identifier that was handed out stays taken: nothing in the generators reaches
     # into a name generator's books to take names or counters out again
-    books = ("existing_names", "prefix_to_counter")
+    # (the counters only say where the search for a free name starts; what is free is
+    # decided by the set of existing names)
+    books = ("existing_names",)
     takers = []
     n_scanned = 0
     for m in P.repo_modules():
@@ -637,7 +674,18 @@ def _shared(run, P):
                         for t in (x.targets if isinstance(x, ast.Assign) else [x.target])):
                     tgt = x
                 if tgt is not None:
-                    takers.append((fn, tgt))
+                    # taken out for the length of one request and put back in a finally
+                    # clause of the same function: the names stay taken for everybody else
+                    arg_ = norm(tgt.args[0]) if isinstance(tgt, ast.Call) and tgt.args else None
+                    restored = arg_ is not None and any(
+                        isinstance(t_, ast.Try) and any(
+                            isinstance(y, ast.Call) and isinstance(y.func, ast.Attribute)
+                            and y.func.attr in ("update", "add") and isinstance(y.func.value, ast.Attribute)
+                            and y.func.value.attr in books and y.args and norm(y.args[0]) == arg_
+                            for b in t_.finalbody for y in ast.walk(b))
+                        for t_ in ast.walk(fn.node))
+                    if not restored:
+                        takers.append((fn, tgt))
     run.ob("C13.shared", takers[0][0] if takers else P.module("dagrt.codegen.fortran"),
            takers[0][1] if takers else None, not takers,
            construct=f"no function of dagrt.codegen ({n_scanned} scanned) takes names or counters "
